@@ -13,6 +13,7 @@ package main
 // Rules classify paths and compare the resulting decision table with an oracle.
 
 import (
+	"math/bits"
 	"fmt"
 	"go/constant"
 	"go/token"
@@ -221,6 +222,31 @@ type Path struct {
 	Ret       []AV
 	LoopTo    *ssa.BasicBlock
 	Mem       map[string]AV
+	ivals     map[string]*ival
+}
+
+// IntWithin reports whether the integer constraints collected on the path for the value whose key matches pattern
+// (site wildcards allowed) confine it to [lo,hi], given that its type confines it to [baseLo,baseHi] (a small range).
+func (p *Path) IntWithin(pattern string, baseLo, baseHi, lo, hi int64) bool {
+	re := pat(pattern)
+	for k, iv := range p.ivals {
+		if !re.MatchString(k) {
+			continue
+		}
+		ok := true
+		for v := baseLo; v <= baseHi; v++ {
+			if (iv.hasLo && v < iv.lo) || (iv.hasHi && v > iv.hi) || iv.ne[v] {
+				continue
+			}
+			if v < lo || v > hi {
+				ok = false
+			}
+		}
+		if ok {
+			return true
+		}
+	}
+	return false
 }
 
 func (p *Path) Decided(key string) (bool, bool) {
@@ -391,7 +417,7 @@ func (p *Program) Explore(fn *ssa.Function, opts Opts) ([]*Path, error) {
 	st.frames = []*frame{fr}
 	it.run(st)
 	if it.limit {
-		return it.paths, fmt.Errorf("path limit %d exceeded in %s", opts.MaxPaths, p.FuncName(fn))
+		return it.paths, fmt.Errorf("path limit %d exceeded in %s", opts.MaxPaths, p.rawName(fn))
 	}
 	return it.paths, nil
 }
@@ -401,14 +427,14 @@ func (it *interp) finish(st *state, end string, ret []AV, loopTo *ssa.BasicBlock
 		it.limit = true
 		return
 	}
-	it.paths = append(it.paths, &Path{Events: st.events, Decisions: st.decs, End: end, Ret: ret, LoopTo: loopTo, Mem: st.mem})
+	it.paths = append(it.paths, &Path{Events: st.events, Decisions: st.decs, End: end, Ret: ret, LoopTo: loopTo, Mem: st.mem, ivals: st.ivals})
 }
 
 func (it *interp) siteID(in ssa.Instruction) string {
 	b := in.Block()
 	for i, x := range b.Instrs {
 		if x == in {
-			return fmt.Sprintf("%s.b%di%d", it.prog.FuncName(b.Parent()), b.Index, i)
+			return fmt.Sprintf("%s.b%di%d", it.prog.rawName(b.Parent()), b.Index, i)
 		}
 	}
 	return "?"
@@ -486,7 +512,7 @@ func (it *interp) run(st *state) {
 			// pop inlined frame
 			st.frames = st.frames[:len(st.frames)-1]
 			caller := st.top()
-			st.events = append(st.events, &Event{Kind: "inline-exit", Callee: it.prog.FuncName(fr.fn), Fn: fr.fn, Args: rets, Instr: in, Depth: len(st.frames), In: fr.fn, NDec: len(st.decs)})
+			st.events = append(st.events, &Event{Kind: "inline-exit", Callee: it.prog.rawName(fr.fn), Fn: fr.fn, Args: rets, Instr: in, Depth: len(st.frames), In: fr.fn, NDec: len(st.decs)})
 			if fr.fromDefer {
 				// result discarded; continue caller's RunDefers
 				continue
@@ -530,7 +556,14 @@ func succ(b *ssa.BasicBlock, cond bool) *ssa.BasicBlock {
 func (it *interp) jump(st *state, fr *frame, to *ssa.BasicBlock) bool {
 	if fr.visited[to] >= it.opts.Unroll {
 		// back edge: end of one iteration
-		if len(st.frames) == 1 {
+		// a loop of the explored function, or of a helper extracted from it (every frame above the root is see-through)
+		transparent := true
+		for _, f := range st.frames[1:] {
+			if knownFuncs[it.prog.rawName(f.fn)] || f.fn.Parent() != nil {
+				transparent = false
+			}
+		}
+		if len(st.frames) == 1 || transparent {
 			st.events = append(st.events, &Event{Kind: "loop", Instr: to.Instrs[0], In: fr.fn, NDec: len(st.decs)})
 			it.finish(st, "loop", nil, to)
 		} else {
@@ -1120,9 +1153,9 @@ func (it *interp) allocKey(a *ssa.Alloc) string {
 				}
 			}
 		}
-		return fmt.Sprintf("H:%s:%s:%d", it.prog.FuncName(fn), a.Comment, idx)
+		return fmt.Sprintf("H:%s:%s:%d", it.prog.rawName(fn), a.Comment, idx)
 	}
-	return fmt.Sprintf("L:%s:%s:%d", it.prog.FuncName(fn), a.Comment, idx)
+	return fmt.Sprintf("L:%s:%s:%d", it.prog.rawName(fn), a.Comment, idx)
 }
 
 func derefType(t types.Type) types.Type {
@@ -1348,6 +1381,31 @@ func (it *interp) binop(op token.Token, x, y AV, t types.Type) AV {
 			}
 		}
 	}
+	// x & c  and  x &^ ^c  are the same mask: keep the spelling whose constant has fewer bits set (tie: "&")
+	if (op == token.AND || op == token.AND_NOT) && oky && !okx && !cy.IsNil && cy.V != nil && cy.V.Kind() == constant.Int {
+		if bt, ok := t.Underlying().(*types.Basic); ok && bt.Info()&types.IsUnsigned != 0 {
+			width := map[types.BasicKind]uint{types.Uint8: 8, types.Uint16: 16, types.Uint32: 32, types.Uint64: 64}[bt.Kind()]
+			if c, ok := constant.Uint64Val(cy.V); ok && width > 0 {
+				full := ^uint64(0) >> (64 - width)
+				comp := ^c & full
+				nc, ncomp := bits.OnesCount64(c&full), bits.OnesCount64(comp)
+				flip := false
+				if op == token.AND && ncomp < nc {
+					flip = true
+				}
+				if op == token.AND_NOT && ncomp <= nc {
+					flip = true
+				}
+				if flip {
+					nop := token.AND
+					if op == token.AND {
+						nop = token.AND_NOT
+					}
+					return &Expr{Op: "binop", Name: tokOp[nop], Args: []AV{x, &Const{V: constant.MakeUint64(comp)}}, T: t}
+				}
+			}
+		}
+	}
 	// algebraic identities (x+0, x-0, x|0, x^0, x*1, x<<0)
 	if oky && !cy.IsNil && cy.V != nil && cy.V.Kind() == constant.Int {
 		if v, ok := constant.Int64Val(cy.V); ok {
@@ -1377,6 +1435,10 @@ func (it *interp) binop(op token.Token, x, y AV, t types.Type) AV {
 				return true
 			case *Expr:
 				if a.Op == "call" && (strings.HasPrefix(a.Name, "fmt.Errorf@") || strings.HasPrefix(a.Name, "errors.New@")) {
+					return true
+				}
+				// exported error variables of other packages (io.EOF, net.ErrClosed, context.Canceled …) are never nil
+				if a.Op == "load" && strings.HasPrefix(a.Name, "G:") && !strings.HasPrefix(a.Name, "G:websocket.") && a.T != nil && a.T.String() == "error" {
 					return true
 				}
 				return a.Op == "makechan" || a.Op == "makemap" || a.Op == "makeslice"
@@ -1467,7 +1529,7 @@ func typeString(t types.Type) string {
 // fnName: library functions get the short name; others the qualified SSA name.
 func (it *interp) fnName(fn *ssa.Function) string {
 	if it.prog.isLib(fn) {
-		return it.prog.FuncName(fn)
+		return it.prog.rawName(fn)
 	}
 	return qualName(fn)
 }
@@ -1704,17 +1766,10 @@ func (it *interp) seeThrough(fn *ssa.Function, depth int) bool {
 	if depth > 4 || fn.Parent() != nil || !it.prog.isLib(fn) {
 		return false
 	}
-	if knownFuncs[it.prog.FuncName(fn)] {
+	if knownFuncs[it.prog.rawName(fn)] {
 		return false
 	}
-	// loop-free?
-	for _, b := range fn.Blocks {
-		for _, s := range b.Succs {
-			if s.Index <= b.Index && s.Dominates(b) {
-				return false
-			}
-		}
-	}
+	// loops of the helper are cut and unrolled like those of the function it was extracted from (per frame)
 	return true
 }
 
